@@ -559,7 +559,7 @@ pub fn c07_case(data: &[u8]) -> c07::Scenario {
         };
         (d.u16(), s)
     });
-    c07::Scenario { k, trains, merge, strays, reuse_mask: d.u8() }
+    c07::Scenario { k, trains, merge, strays, reuse_mask: d.u8(), as_frame: d.bool(), spare: d.range(0, 2) as u8 }
 }
 
 pub fn c10_case(data: &[u8]) -> c10::Case {
